@@ -579,6 +579,7 @@ pub(crate) fn verif_stats() -> crate::verif::CollectorStats {
     crate::verif::CollectorStats {
         active,
         receivers: SPSC_RXS.lock().len(),
+        parked_cancels: PARKED_CANCELS.lock().as_ref().map_or(0, |noted| noted.len()),
     }
 }
 
